@@ -111,6 +111,25 @@ class AddNominal(Op):
                         yield (m, t, ("U", 0, k, 0, 0, 0, 0))
                     for k in [1, -1, 4, -4, 100, 3]:
                         yield (m, t, ("U", k, 0, 0, 0, 0, 0))
+        # year steps that LAND on a distinguished year (0 - falsy in Python, yet leap -, the years around it,
+        # century / 400-year rule years, the 4-digit limit) from the dates a clamp may or may not apply to
+        targets = [0, 1, -1, 4, -4, 100, -100, 400, -400, 1900, 2000, 2100, 9999, 10000]
+        for m in oracle.MODES:
+            for y in [-4, 4, 400, 1996, 2000, 2003]:
+                pts = [("c", y, 2, oracle.month_len(m, y, 2)), ("c", y, 2, 28), ("c", y, 1, 29), ("c", y, 1, 31 if m != "d360" else 30),
+                       ("o", y, oracle.year_len(m, y)), ("o", y, 365 if m != "d360" else 360),
+                       ("w", y, oracle.weeks_in_year(m, y), 7), ("w", y, 52 if m != "d360" else 51, 3)]
+                for date in gens.shard_filter(pts, self.shard):
+                    t = (date + (0,) if date[0] == "o" else date) + (23, 59, 59, 0, 0)
+                    for tgt in targets:
+                        k = tgt - y
+                        if k == 0:
+                            continue
+                        yield (m, t, ("U", k, 0, 0, 0, 0, 0))
+                        if date[0] == "c" and date[2] == 1:
+                            yield (m, t, ("U", k, 1, 0, 0, 0, 0))      # ... then one month on into February
+                        if abs(k) <= 8:
+                            yield (m, t, ("U", 0, 12 * k, 0, 0, 0, 0))
 
     def line(self, a):
         return "add %s %s %s" % (a[0], T.tp_str(a[1]), T.dur_str(a[2]))
